@@ -1,6 +1,6 @@
 """C11 — instruction encoding and the textual assembly form are exact inverses."""
 import os
-from .. import build, common
+from .. import build, common, corpus
 
 MODULE = "NanoVerif.Props.C11"
 PATTERNS64 = [0, 1, 0x7F, 0x80, 0xFF, 0x7FFF, 0x8000, 0xFFFF, 0x7FFFFFFF, 0x80000000, 0xFFFFFFFF,
@@ -141,6 +141,98 @@ def run(ctx):
         if c != want:
             oracle_fail.append({"input": src, "reencode": l, "impl": c, "expected": want, "why": "encode(decode b) != b"})
     ctx.cov["reencoded"] = len(reenc_lines)
+
+    # ---- text form: assemble(disassemble(m)) = m on compiler-produced and synthetic modules ----------
+    import struct
+    mods = []   # (label, hex, layout_in_table_order)
+    def layout_ok(fn_entries):
+        off = 0
+        for (o, l) in fn_entries:
+            if o != off:
+                return False
+            off += l
+        return True
+    files = corpus.nvm_corpus(tdir)
+    if ctx.tier == "quick":
+        step = max(1, len(files) // 120)
+        files = files[::step]
+    lines = ["nvm.load " + b.hex() for _, b in files]
+    loaded = common.batch_robust(probe, lines, env=env)
+    for (src, b), r in zip(files, loaded):
+        if not r.startswith("ok "):
+            continue
+        fns = dict(x.split("=", 1) for x in r[3:].split(";")).get("fn", "")
+        ents = [(int(e.split(".")[2]), int(e.split(".")[3])) for e in fns.split(",") if e]
+        mods.append((os.path.basename(src), b.hex(), layout_ok(ents)))
+    # synthetic: one function holding every opcode with boundary operands, jump targets on instruction boundaries
+    def enc(op, vals):
+        out = bytes([op])
+        for v, sz in zip(vals, table[op]):
+            out += (v & ((1 << (8 * sz)) - 1)).to_bytes(sz, "little")
+        return out
+    i32_ops = {b for b in table if any(False for _ in ())}
+    info_names = {b: m_info[b].split()[0] for b in table}
+    optypes = {}
+    for b in table:
+        optypes[b] = None
+    # operand kinds are not in isa.info; jumps are the opcodes named JMP*, MATCH_TAG (i32 operand = last 4-byte slot)
+    jump_slot = {b: (len(table[b]) - 1) for b in table if info_names[b] in ("JMP", "JMP_TRUE", "JMP_FALSE", "MATCH_TAG")}
+    f64_ops = {b for b in table if info_names[b] == "PUSH_F64"}
+    nsyn = 12 if ctx.tier == "quick" else 200
+    fvals = [0, 0x8000000000000000, 0x3FF0000000000000, 0x7FEFFFFFFFFFFFFF, 0x0000000000000001, 0x7FF0000000000000,
+             0xFFF0000000000000, 0x400921FB54442D18, 0xC05EDD2F1A9FBE77, 0x3FB999999999999A]
+    for k in range(nsyn):
+        instrs_k = []
+        ops = sorted(table)
+        rng.shuffle(ops)
+        for b in ops + [rng.choice(ops) for _ in range(40)]:
+            sizes = table[b]
+            if b in f64_ops:
+                vals = [rng.choice(fvals)]
+            else:
+                vals = [rng.choice(patterns_for(sz)) if rng.random() < 0.7 else rng.getrandbits(8 * sz) for sz in sizes]
+            instrs_k.append([b, vals])
+        # lay out, then point every jump at a random instruction boundary (or the end)
+        starts, pos = [], 0
+        for b, vals in instrs_k:
+            starts.append(pos); pos += 1 + sum(table[b])
+        ends = starts + [pos]
+        for i, (b, vals) in enumerate(instrs_k):
+            if b in jump_slot:
+                tgt = rng.choice(ends)
+                vals[jump_slot[b]] = (tgt - starts[i]) & 0xFFFFFFFF
+        code = b"".join(enc(b, vals) for b, vals in instrs_k)
+        strs = [b"f", b"a; b # c", b"line1\nline2\ttab \"q\" \\ back", b"", b"caf\xc3\xa9"] + [("s%d" % j).encode() for j in range(rng.randint(0, 70))]
+        txt = "f=1;e=0;s=%s;c=%s;fn=0.%d.0.%d.%d.%d;d=;i=" % (",".join(common.hexs(x) for x in strs), code.hex(), rng.randint(0, 3), len(code), rng.choice([0, 3, 255, 256, 65535]), rng.choice([0, 1, 300]))
+        mods.append(("synthetic-%d" % k, None, True, txt))
+    ser_lines = ["nvm.ser " + mm[3] for mm in mods if mm[1] is None]
+    ser = common.batch_robust(probe, ser_lines, env=env)
+    it = iter(ser)
+    final = []
+    for mm in mods:
+        if mm[1] is None:
+            r = next(it)
+            if r.startswith("ok "):
+                final.append((mm[0], r[3:], True))
+        else:
+            final.append(mm[:3])
+    rt = common.batch_robust(probe, ["asm.rt " + hx for _, hx, _ in final], env=env, timeout=900)
+    ctx.cov["text_roundtrip_modules"] = len(final)
+    ctx.cov["text_roundtrip_synthetic"] = sum(1 for f in final if f[0].startswith("synthetic"))
+    relaid_known = 0
+    for (name, hx, inorder), r in zip(final, rt):
+        ctx.case("asm.rt:" + name + hx[-64:])
+        if r == "same":
+            continue
+        if r == "relaid" and not inorder and "F-C11-2" in ctx.findings and ctx.findings["F-C11-2"]["status"] == "known":
+            relaid_known += 1
+            continue
+        oracle_fail.append({"input": "asm.rt <%s>" % name, "impl": r, "expected": "same", "module_hex": hx,
+                            "why": "assemble(disassemble(m)) differs from m"})
+    if relaid_known:
+        ctx.known("F-C11-2", "assemble(disassemble(m)) lays function bodies out in table order: %d modules with top-level lets or imports "
+                  "(code layout != table order) come back with the same functions but a permuted code section" % relaid_known)
+    ctx.cov["text_roundtrip_relaid_known"] = relaid_known
     for s in (enc_lines[17], dec_lines[5], dec_lines[-1]):
         ctx.sample(s)
     ctx.sample({"theorems": info.get("theorems", [])})
